@@ -13,8 +13,7 @@ C18: what the three exporters do with a circuit the builders accepted, as an *ou
   `Latex.circuitLatex (toLatexCirc c)` is the model of `Circuit::latex()` on a built circuit.
 
 Gate terms: the primitives, the *named* controlled gates (`CH … CCZ`, parsed as `C …`; the generic
-`C<G>` has no QASM translation and cannot be added to a `Circuit`), `Kron`.  `Composite`/`Loop` are
-outside this class model (`unsupported`).
+`C<G>` has no QASM translation and cannot be added to a `Circuit`), `Kron`, `Composite`, `Loop`.
 -/
 namespace Q1t.ExportClass
 open Q1t Q1t.Sim Q1t.Builders
@@ -29,27 +28,13 @@ def Cls.andThen (a : Cls) (b : Unit → Cls) : Cls :=
 
 variable {P : Type}
 
-/-- one-qubit library gates: `format!("… {}", bit_names[bits[0]])` -/
-def isPrim1 : GateTerm P → Bool
-  | .H | .X | .Y | .Z | .S | .Sdg | .T | .Tdg | .V | .Vdg | .I => true
-  | .RX _ | .RY _ | .RZ _ | .U1 _ | .U2 _ _ | .U3 _ _ _ => true
-  | _ => false
-
-/-- `gate.open_qasm(names, bits)` / `gate.c_qasm(names, bits)` (same class for both formats); the
-names cover every index below `nr_qbits`, which the builders guarantee for `bits` -/
-def gateCls : GateTerm P → List Nat → Cls
-  | .CX, bits | .CY, bits | .CZ, bits => if bits.length ≠ 2 then .err else .ok   -- `check_nr_bits` first
-  | .Swap, bits => if bits.length < 2 then .panic else .ok                       -- `bits[0]`, `bits[1]`
-  | .C _, _ => .ok                                   -- `declare_controlled_qasm!`: loops over `bits`, never indexes
-  | .Kron g0 g1, bits =>
-    let n0 := Gate.nrBits g0
-    if bits.length < n0 then .panic                  -- `&bits[..n0]`
-    else (gateCls g0 (bits.take n0)).andThen fun _ => gateCls g1 (bits.drop n0)
-  | .Composite .., _ | .Loop .., _ => .unsupported
-  | _, bits => if bits.isEmpty then .panic else .ok  -- the one-qubit gates: `bits[0]`
-
-/-- `conditional_open_qasm`: the default prefixes `open_qasm`, `Kron` recurses on the same slices -/
-def condGateClsOQ (g : GateTerm P) (bits : List Nat) : Cls := gateCls g bits
+/-- `bits[b]` for every local index of a sub-gate (`op.bits.iter().map(|&b| bits[b])`); index panic when
+a local index is not below the number of operands the composite received -/
+def subBits (bits : List Nat) : List Nat → Option (List Nat)
+  | [] => some []
+  | b :: bs => match bits[b]?, subBits bits bs with
+    | some x, some xs => some (x :: xs)
+    | _, _ => none
 
 /-- does the default `conditional_c_qasm` find a blank in the unconditional text?  Only the "plain"
 named controlled gates without parameters (`ch`, `cv`, `cvdg`) on an empty operand list have none -/
@@ -57,13 +42,33 @@ def condSplitFails : GateTerm P → List Nat → Bool
   | .C .H, [] | .C .V, [] | .C .Vdg, [] => true
   | _, _ => false
 
-/-- `conditional_c_qasm` -/
-def condGateClsCQ : GateTerm P → List Nat → Cls
+mutual
+/-- `gate.open_qasm` (`cq = false`) / `gate.c_qasm` (`cq = true`), and their `conditional_…` forms
+(`cond = true`), on names that cover every index below `nr_qbits` (which the builders guarantee for the
+operands of the circuit operation) -/
+def gateCls (cq cond : Bool) : GateTerm P → List Nat → Cls
+  | .CX, bits | .CY, bits | .CZ, bits => if bits.length ≠ 2 then .err else .ok   -- `check_nr_bits` first
+  | .Swap, bits => if bits.length < 2 then .panic else .ok                       -- `bits[0]`, `bits[1]`
+  | .C g, bits =>
+    -- `declare_controlled_qasm!`: loops over `bits`, never indexes; the default `conditional_c_qasm` splits at a blank
+    if cq && cond && condSplitFails (.C g) bits then .err else .ok
   | .Kron g0 g1, bits =>
     let n0 := Gate.nrBits g0
-    if bits.length < n0 then .panic
-    else (condGateClsCQ g0 (bits.take n0)).andThen fun _ => condGateClsCQ g1 (bits.drop n0)
-  | g, bits => (gateCls g bits).andThen fun _ => if condSplitFails g bits then .err else .ok
+    if bits.length < n0 then .panic                  -- `&bits[..n0]`
+    else (gateCls cq cond g0 (bits.take n0)).andThen fun _ => gateCls cq cond g1 (bits.drop n0)
+  | .Composite _ _ ops, bits => opsGateCls cq cond ops bits       -- no arity check of its own
+  | .Loop _ iters _ _ body, bits =>
+    -- `open_qasm` and both conditional forms return the empty text for 0 iterations; `c_qasm` formats the body always
+    if iters = 0 && (!cq || cond) then .ok else opsGateCls cq cond body bits
+  | _, bits => if bits.isEmpty then .panic else .ok  -- the one-qubit gates: `bits[0]`
+/-- the loop over the sub-gates of a composite -/
+def opsGateCls (cq cond : Bool) : OpList P → List Nat → Cls
+  | .nil, _ => .ok
+  | .cons g sb rest, bits =>
+    match subBits bits sb with
+    | none => .panic
+    | some gb => (gateCls cq cond g gb).andThen fun _ => opsGateCls cq cond rest bits
+end
 
 /-- `is_full_register` -/
 def isFullRegister (nc : Nat) (control : List Nat) : Bool :=
@@ -74,12 +79,12 @@ def isIdentity (n : Nat) (l : List Nat) : Bool := l.length == n && l.zipIdx.all 
 
 /-- one operation of `Circuit::open_qasm` -/
 def oqOp (nq nc : Nat) : COp P → Cls
-  | .gate g bits => gateCls g bits
+  | .gate g bits => gateCls false false g bits
   | .cond control _ g bits =>
-    if control.isEmpty then gateCls g bits
+    if control.isEmpty then gateCls false false g bits
     else if !isFullRegister nc control then .err              -- IncompleteConditionRegister
     else if 64 < control.length then .panic                   -- `target >> tshift`, `<< sshift` on u64
-    else condGateClsOQ g bits
+    else gateCls false true g bits
   | .measure _ _ _ => .ok
   | .measureAll cbits _ =>
     if isIdentity nc cbits then .ok                           -- `measure q -> b`
@@ -90,11 +95,11 @@ def oqOp (nq nc : Nat) : COp P → Cls
 
 /-- one operation of `Circuit::c_qasm`; `cbit_names` has `nr_qbits` entries -/
 def cqOp (nq : Nat) : COp P → Cls
-  | .gate g bits => gateCls g bits
+  | .gate g bits => gateCls true false g bits
   | .cond control _ g bits =>
-    if control.isEmpty then gateCls g bits
+    if control.isEmpty then gateCls true false g bits
     else if 64 < control.length ∨ control.any (fun idx => nq ≤ idx) then .panic  -- `1 << shift`, `cbit_names[idx]`
-    else condGateClsCQ g bits
+    else gateCls true true g bits
   | .measure q c _ => if q ≠ c then .err else .ok             -- NoClassicalRegister
   | .measureAll cbits _ => if cbits.zipIdx.all (fun (b, i) => b == i) then .ok else .err
   | .peek _ _ _ | .peekAll _ _ => .err
